@@ -298,6 +298,9 @@ type tagKeyM struct {
 type seriesM struct {
 	ident
 	tags []kvPair
+	// found on a recovered node: GenSeriesID did not index it again, so whether its tag names /
+	// tag postings survived the crash says nothing about id assignment (that is C07's subject)
+	foundOnly bool
 }
 
 type metricM struct {
@@ -400,7 +403,7 @@ func (m *model) observeSeriesOpt(i int, r rowSpec, id uint32, tagNames bool) err
 	c := r.canonTags()
 	s := byTags[c]
 	if s == nil {
-		s = &seriesM{ident: ident{seq: m.seq}, tags: r.Tags}
+		s = &seriesM{ident: ident{seq: m.seq}, tags: r.Tags, foundOnly: !tagNames}
 		byTags[c] = s
 	}
 	if tagNames {
@@ -742,6 +745,9 @@ func checkIndex(n *node, m *model, exact bool) error {
 			for _, c := range sortedKeys(m.series[i][k]) {
 				s := m.series[i][k][c]
 				all.Add(s.id)
+				if s.foundOnly {
+					continue
+				}
 				for _, t := range s.tags {
 					if byKey[t.K] == nil {
 						byKey[t.K] = roaring.New()
